@@ -76,16 +76,7 @@ def _varied(names, c0, rng_val):
     return j, [base / 2, base / 4]
 
 
-def _varied2(names, c0, rng_val):
-    j1 = rng_val % len(names)
-    j2 = (j1 + 1 + (rng_val // 7) % (len(names) - 1)) % len(names)
-    j1, j2 = sorted((j1, j2))
-    b1 = c0[j1] if c0[j1] > 0 else 1e-3
-    b2 = c0[j2] if c0[j2] > 0 else 1e-3
-    return (j1, [b1 / 2, b1 * 2]), (j2, [b2 / 2, b2 * 2])
-
-
-def row_inits(names, c0, guess, chain, rng_val):
+def row_inits(names, c0, guess, chain, rng_val, varied=None):
     """the initial state each result row belongs to - known from what the harness itself passes in
     (never read back from the code under test)"""
     def with_(base, subst):
@@ -96,15 +87,14 @@ def row_inits(names, c0, guess, chain, rng_val):
     if chain == "solve-varied":
         j, vals = _varied(names, c0, rng_val)
         return [with_(c0, {j: v}) for v in (vals[0], vals[0] * 4)]
-    if chain == "solve-varied2":
-        (j1, v1), (j2, v2) = _varied2(names, c0, rng_val)
-        return [with_(c0, {j1: a, j2: b}) for a in v1 for b in v2]
+    if chain == "solve-varied2":    # the grid the specification rebuilt from keys and levels
+        return [[ec.dec_float(v) for v in cell["init"]] for cell in varied["grid"]]
     if chain == "root-reuse":
         return [list(c0), list(guess)]
     return [list(c0)]
 
 
-def _call(es, names, c0, guess, chain, rng_val):
+def _call(es, names, c0, guess, chain, rng_val, varied=None):
     """returns list of rows: dict(x, ok, sane) in call order"""
     import collections
     import numpy as np
@@ -167,13 +157,36 @@ def _call(es, names, c0, guess, chain, rng_val):
         r = es.solve(init, {names[j]: [vals[0], vals[0] * 4]})
         return [dict(x=list(r.conc[i]), ok=bool(r.success[i]), sane=bool(r.sane[i])) for i in range(2)]
     if chain == "solve-varied2":
-        (j1, v1), (j2, v2) = _varied2(names, c0, rng_val)
-        r = es.solve(init, {names[j1]: v1, names[j2]: v2})
-        return [dict(x=list(r.conc[a, b]), ok=bool(r.success[a, b]), sane=bool(r.sane[a, b]))
-                for a in range(2) for b in range(2)]
+        import collections as _c
+        mapping = _c.OrderedDict((names[int(k) - 1], [ec.dec_float(v) for v in lv])
+                                 for k, lv in zip(varied["keys"], varied["levels"]))   # listing order of the case
+        r = es.solve(init, mapping)
+        rows = []
+        for cell in varied["grid"]:
+            a, b = int(cell["idx"][0]) - 1, int(cell["idx"][1]) - 1
+            rows.append(dict(x=list(r.conc[a, b]), ok=bool(r.success[a, b]), sane=bool(r.sane[a, b])))
+        return rows
     if chain == "stub":
         return one(es.root(init, NumSys=(_stub_class(),)))
     raise ValueError(chain)
+
+
+def _as_vector(x, n):
+    """total projection of a returned concentration vector: n floats, nan where there is no real number"""
+    try:
+        vals = list(x)
+    except Exception:
+        vals = []
+    out = []
+    for t in range(n):
+        try:
+            v = float(vals[t])
+        except Exception:
+            v = float("nan")
+        out.append(v)
+    if len(vals) != n:
+        out = [float("nan")] * n
+    return out
 
 
 def _enc_events(events, s_exp):
@@ -186,7 +199,7 @@ def _enc_events(events, s_exp):
                 if e[k] is None:
                     e[k] = e["x"] if k == "xd" and isinstance(e.get("x"), dict) else None
                     continue
-                if any(math.isnan(v) for v in e[k]):
+                if any(v != v for v in e[k]):
                     nan = True
                 e[k], c = ec.enc_vec(e[k], s_exp)
                 clipped = clipped or c
@@ -203,7 +216,7 @@ def run_problem(job):
     guess = [ec.dec_float(v) for v in inp.get("guess", inp["c0"])]
     # species by explicit composition or by formula (the names are formulae of the same composition)
     spform = "formula" if (rng_val // 3) % 2 else "comp"
-    es, names = ec.build_system(inp["species"], inp["nu"], ks, spform=spform)
+    names = [sp["name"] for sp in inp["species"]]
     ns = len(names)
     rec.install()
     rec.start()
@@ -211,7 +224,8 @@ def run_problem(job):
     with warnings.catch_warnings():
         warnings.simplefilter("ignore")
         try:
-            rows = _call(es, names, c0, guess, chain, rng_val)
+            es, names = ec.build_system(inp["species"], inp["nu"], ks, spform=spform)
+            rows = _call(es, names, c0, guess, chain, rng_val, inp.get("varied"))
         except Exception as ex:  # projected: exception -> class name + text
             exc = "%s: %s" % (type(ex).__name__, str(ex)[:120])
     events = rec.stop()
@@ -223,7 +237,7 @@ def run_problem(job):
         elif segs:
             segs[-1].append(e)
     out = []
-    inits = row_inits(names, c0, guess, chain, rng_val)
+    inits = row_inits(names, c0, guess, chain, rng_val, inp.get("varied"))
     if exc is not None and not segs:
         segs = [[{"ev": "row"}]]
     if len(segs) > len(inits):
@@ -249,8 +263,10 @@ def run_problem(job):
                        "judged": chain != "stub"})
         else:
             r = rows[idx]
-            xenc, c2 = ec.enc_vec(r["x"], s_exp)
-            xnan = any(math.isnan(float(v)) for v in r["x"])
+            xs = _as_vector(r["x"], ns)      # whatever came back travels as a vector of ns numbers (nan = not one)
+            r = dict(r, x=xs)
+            xenc, c2 = ec.enc_vec(xs, s_exp)
+            xnan = any(v != v for v in xs)
             meta.update(ok=r["ok"], sane=r["sane"], x=[float("%.9g" % float(v)) for v in r["x"]],
                         clipped=clipped or c2)
             tr.append({"ev": "result", "x": xenc, "ok": r["ok"], "sane": r["sane"], "exc": False, "nan": xnan,
@@ -328,6 +344,8 @@ def _plan(ctx, cases):
         extra = list(HOMOG_CHAINS if homog else SALT_CHAINS)
         ctx.rng.shuffle(extra)
         chains += extra[:4] if ctx.quick else extra[:10]
+        if not c["in"].get("varied", {}).get("grid"):
+            chains = [ch for ch in chains if ch != "solve-varied2"]
         for ch in chains:
             jobs.append((c, ch, ctx.rng.randrange(1 << 30)))
     # more well-conditioned problems for the success-rate tally (default chains only)
